@@ -9,7 +9,7 @@
 """
 from __future__ import annotations
 from ._thermo import Thermo
-from ._stream import Stream
+from ._stream import Stream, Equations
 from ._thermal_condition import ThermalCondition
 from .indexer import MolarFlowIndexer
 from ._phase import phase_tuple
@@ -256,6 +256,7 @@ class MultiStream(Stream):
     def from_streams(cls, streams, thermo=None):
         if not streams: raise ValueError('at least one stream must be passed')
         self = cls.__new__(cls)
+        self.equations = Equations()
         self._streams = streams_by_phase = {i.phase: i for i in streams}
         phases = phase_tuple(streams_by_phase)
         N_streams = len(streams)
